@@ -35,12 +35,16 @@ type Engine struct {
 	implIfaces  map[string]types.Type
 	built       map[string]bool
 	loadErrs    []string
+	lockDiscReads bool
+	lockDisc    bool // lock-discipline obligations (writes to guarded fields happen under the mutex)
 }
 
 func newEngine(repo, trustedDir string, extraTrusted ...string) (*Engine, error) {
 	e := &Engine{repo: repo, ssaPkgs: map[string]*ssa.Package{}, allTypes: map[string]*types.Package{},
 		fnContract: map[*ssa.Function]*FuncContract{}, contractFn: map[*FuncContract]*ssa.Function{},
 		roGlobals: map[string]bool{}, arrFieldIDs: map[string]int{}, implIfaces: map[string]types.Type{}, built: map[string]bool{}}
+	e.lockDisc = os.Getenv("NSQVC_NO_LOCKDISC") == ""
+	e.lockDiscReads = os.Getenv("NSQVC_LOCKDISC_READS") != ""
 	mod, err := os.ReadFile(filepath.Join(repo, "go.mod"))
 	if err != nil {
 		return nil, err
